@@ -14,7 +14,7 @@ def cmpAsc (a b : Int) : Int := if a < b then -1 else if a > b then 1 else 0
 def cmpDesc (a b : Int) : Int := if a > b then -1 else if a < b then 1 else 0
 def eqI (a b : Int) : Bool := a == b
 
-partial def dumpTree (kind : Kind) : Tree Int Int → String
+def dumpTree (kind : Kind) : Tree Int Int → String
   | .nil => "."
   | .node l k v s h c r =>
     let extra := match kind with
